@@ -67,6 +67,7 @@ func main() {
 		os.Exit(1)
 	}
 	computeGuardedBy(P)
+	computeMonitorTypes(P)
 	if *dump != "" {
 		for _, fn := range P.ModuleFuncs() {
 			if strings.Contains(fnKey(fn), *dump) {
